@@ -42,7 +42,9 @@ def _san(s):
 
 
 class Emitter:
-    def __init__(self, backend, env, inline, consts=None, modconsts=None):
+    def __init__(self, backend, env, inline, consts=None, modconsts=None, calls=None, masks=None):
+        self.calls = dict(calls or {})  # user function name -> already generated Gallina function
+        self.masks = set(masks or ())  # names of boolean mask arrays: `a[mask]` means `a`, elementwise
         self.backend = backend
         self.env = env  # name -> (ast node of the most recent rhs, environment before that assignment)
         self.inline = set(inline)
@@ -143,6 +145,12 @@ class Emitter:
             return "(%s %s %s)" % ("Rmax" if R else "cmax O", self.expr(a[0]), self.expr(a[1]))
         if f in ("float", "np.float64") and len(a) == 1:
             return self.expr(a[0])
+        if f in self.calls and a and not node.keywords:
+            # a scalar helper of the same module, translated by an earlier slice of the same file
+            return "(%s %s)" % (self.calls[f], " ".join(self.expr(x) for x in a))
+        if R and f == "np.ones" and len(a) == 1 and not node.keywords and isinstance(a[0], ast.Call) \
+                and ast.unparse(a[0].func) == "len" and len(a[0].args) == 1 and isinstance(a[0].args[0], ast.Name):
+            return "1"  # np.ones(len(z)): the constant 1 at every node (elementwise reading)
         raise TranslateError("call %s not in the accepted syntax" % f)
 
     def cond(self, node):
@@ -212,6 +220,8 @@ class Emitter:
             nm = "%s_%s" % (_san(base), _san(idx))
             if not isinstance(node.value, ast.Name):
                 raise TranslateError("subscript of non-name %s" % base)
+            if isinstance(node.slice, ast.Name) and node.slice.id in self.masks:
+                return self.name(node.value.id)  # a[mask] inside a masked store: the element itself
             if nm not in self.free:
                 self.free.append(nm)
             return nm
@@ -354,6 +364,63 @@ def find_function(tree, qual):
     return node
 
 
+def _masked(fn, sl, backend, consts):
+    """Masked stores (R backend):
+
+        t = np.zeros_like(..);  m = <cmp>;  [aux = <expr>;]  t[m] = <rhs>;  m = <cmp'>;  t[m] = <rhs'>;  return t
+
+    The value of an element of t is the fold of the stores in source order (a later store wins where
+    its mask holds), starting from 0:  if cmp' then rhs' else (if cmp then rhs else 0).
+    Every store is translated in the environment current AT that store (so a mask name that is
+    re-assigned denotes the right comparison); `a[m]` with m the store's mask denotes the element."""
+    if backend != "R":
+        raise TranslateError("masked slices need the R backend")
+    target = sl["target"]
+    env = {}
+    init = None
+    stores = []
+    ret = None
+    for name, rhs in _assignments(fn):
+        if name == target:
+            if init is not None or stores:
+                raise TranslateError("slice %s: %s re-initialised" % (sl["name"], target))
+            if not (isinstance(rhs, ast.Call) and ast.unparse(rhs.func) in ("np.zeros_like", "np.zeros")):
+                raise TranslateError("slice %s: %s is not initialised with zeros" % (sl["name"], target))
+            init = "0"
+            continue
+        m = re.match(r"^%s\[([A-Za-z_]\w*)\]$" % re.escape(target), name)
+        if m:
+            mask = m.group(1)
+            if init is None:
+                raise TranslateError("slice %s: store before initialisation" % sl["name"])
+            if mask not in env or not isinstance(env[mask][0], ast.Compare):
+                raise TranslateError("slice %s: mask %s is not a comparison" % (sl["name"], mask))
+            stores.append((mask, env[mask][0], rhs, dict(env)))
+            continue
+        if name.startswith(target + "["):
+            raise TranslateError("slice %s: store %s not in the accepted syntax" % (sl["name"], name))
+        if name == "return":
+            ret = rhs
+            continue
+        env[name] = (rhs, dict(env))
+    if init is None or not stores:
+        raise TranslateError("slice %s: no masked stores to %s found" % (sl["name"], target))
+    if not (isinstance(ret, ast.Name) and ret.id == target):
+        raise TranslateError("slice %s: the function does not return %s" % (sl["name"], target))
+    body = init
+    free = []
+    for mask, cmp_node, rhs, env_at in stores:
+        em = Emitter(backend, env_at, sl.get("inline", []), consts=dict(consts or {}, **sl.get("consts", {})),
+                     calls=sl.get("calls"), masks=[mask])
+        em.free = free
+        c = em.cond(cmp_node)
+        r = em.expr(rhs)
+        body = "(if %s then %s else %s)" % (c, r, body)
+    if sorted(free) != sorted(sl["params"]):
+        raise TranslateError("slice %s: free names %r differ from the declared parameters %r" % (sl["name"], sorted(free), sorted(sl["params"])))
+    return body
+
+
 def translate(path, slices, backend, consts=None, **km):
     """slices: list of dicts {name, func, target, occ (0-based, default 0), params [..], inline [..]}.
     Returns Coq text with one definition per slice."""
@@ -367,6 +434,11 @@ def translate(path, slices, backend, consts=None, **km):
     defs = []
     for sl in slices:
         fn = find_function(tree, sl["func"])
+        if sl.get("masked"):
+            body = _masked(fn, sl, backend, consts)
+            ps = " ".join(sl["params"])
+            defs.append("Definition gen_%s %s: R :=\n  %s." % (sl["name"], ("(%s : R) " % ps) if ps else "", body))
+            continue
         if sl.get("iftest"):
             # the condition of the unique if/elif whose source matches the given pattern
             pat = re.compile(sl["iftest"])
@@ -414,7 +486,8 @@ def translate(path, slices, backend, consts=None, **km):
                     or not isinstance(nodes[0].value, (int, float)):
                 raise TranslateError("slice %s: module constant %s is not a single numeric literal assignment" % (sl["name"], mc))
             modconsts[mc] = nodes[0]
-        em = Emitter(backend, env, sl.get("inline", []), consts=dict(consts or {}, **sl.get("consts", {})), modconsts=modconsts)
+        em = Emitter(backend, env, sl.get("inline", []), consts=dict(consts or {}, **sl.get("consts", {})), modconsts=modconsts,
+                     calls=sl.get("calls"))
         body = em.expr(found)
         if sorted(em.free) != sorted(sl["params"]):
             raise TranslateError("slice %s: free names %r differ from the declared parameters %r" % (sl["name"], sorted(em.free), sorted(sl["params"])))
